@@ -245,6 +245,19 @@ def check(case, ctx):
             if st1 != 'ok' or st2 != 'ok' or st3 != 'ok' or not (len(sp) == len(ss) == len(sa)):
                 ctx.fail('generator-raises', None, [sp, ss, sa], call=[fname, s])
                 continue
+            # the paired return types describe the same peptides, in the same order
+            for rt, single in (('str-span', ss), ('annotation-span', sa)):
+                st4, pr = lib.call(lambda: list(getattr(p, fname)(s, return_type=rt)))
+                ctx.evals += 1
+                if st4 != 'ok' or len(pr) != len(sp):
+                    ctx.fail('generator-paired-return-type', len(sp), pr if st4 != 'ok' else len(pr), call=[fname, s, rt])
+                    continue
+                for (x, y), span, one in zip(pr, sp, single):
+                    same = (x == one) if rt == 'str-span' else (pmodel.observed(x) == pmodel.observed(one))
+                    if tuple(y) != tuple(span) or not same:
+                        ctx.fail('generator-paired-return-type', [one if rt == 'str-span' else one.serialize(), list(span)],
+                                 [x if rt == 'str-span' else x.serialize(), list(y)], call=[fname, s, rt])
+                        break
             if spans_fn is not None and sorted((x[0], x[1]) for x in sp) != sorted(spans_fn()):
                 ctx.fail('generator-spans', sorted(spans_fn()), sorted((x[0], x[1]) for x in sp), call=[fname, s])
             for span, x, y in zip(sp, ss, sa):
